@@ -190,5 +190,18 @@ mod verif_x509_time {
         assert!(a.cmp(&b) == (hi_a, lo_a).cmp(&(hi_b, lo_b)), "derived order is numeric order");
         assert!((a == b) == ((hi_a, lo_a) == (hi_b, lo_b)), "derived equality is numeric equality");
     }}
+
+    //@harness serial_dec_roundtrip_kb Kb fn=Serial::encode_dec,Serial::from_str bound="serials below 2^16 (top 18 octets zero)" timeout=1500 thorough
+    verif_harness!{ #[kani::unwind(52)] serial_dec_roundtrip_kb; |v: u16| {
+        let mut a = [0u8; 20];
+        a[18] = (v >> 8) as u8; a[19] = v as u8;
+        let s = Serial(a);
+        let mut buf = [0u8; 49];
+        let txt = s.encode_dec(&mut buf);
+        // decimal text of the value: at most 5 digits, no leading zero, value preserved
+        assert!(txt.len() <= 5, "at most five digits");
+        let back = Serial::from_str(txt);
+        assert!(matches!(back, Ok(x) if x == s), "decimal text parses back to the same serial");
+    }}
 }
 //@end
